@@ -13,12 +13,23 @@ def dim(lo, hi):
                      st.sampled_from([lo, min(hi, lo + 1), hi, max(lo, hi - 1)]))
 
 
+def _with_parity(draw, lo, hi, parity):
+    klo = (lo - parity + 1) // 2
+    khi = (hi - parity) // 2
+    if khi < klo:
+        return draw(st.integers(lo, hi))
+    return 2 * draw(st.integers(klo, khi)) + parity
+
+
 @st.composite
-def shape2(draw, lo=1, hi=12, square_bias=0.2):
-    r = draw(dim(lo, hi))
-    if draw(st.floats(0, 1)) < square_bias:
+def shape2(draw, lo=1, hi=12, square_bias=0.15):
+    """(rows, cols) with the four parity classes equally likely (Hypothesis' integer
+    distribution alone leaves the mixed-parity classes thin)."""
+    pr, pc = draw(st.sampled_from([(0, 0), (0, 1), (1, 0), (1, 1)]))
+    r = _with_parity(draw, lo, hi, pr)
+    if pr == pc and draw(st.floats(0, 1)) < 2 * square_bias:
         return (r, r)
-    return (r, draw(dim(lo, hi)))
+    return (r, _with_parity(draw, lo, hi, pc))
 
 
 def finite(lo, hi):
